@@ -223,6 +223,28 @@ func c11Build(r *core.Rng, fresh ...int) *c11Target {
 		}
 	}
 	walk(t.root, 0)
+	// a past: some stacks have been popped from, re-pushed, had an element re-placed or inserted (whatever a mutator leaves
+	// for the next query to tidy up is then still lying around)
+	for _, s := range t.stacks {
+		if s.IsReadOnly() || s.Len() == 0 || !r.Chance(1, 3) {
+			continue
+		}
+		switch r.Intn(3) {
+		case 0:
+			if v, ok := s.Pop(); ok {
+				s.Push(v)
+			}
+		case 1:
+			i := r.Intn(s.Len())
+			if v, ok := s.Index(i); ok {
+				s.Replace(v, i)
+			}
+		default:
+			if s.Cap() < 0 {
+				s.Insert("inserted-later", r.Intn(s.Len()+1))
+			}
+		}
+	}
 	// identifiers of the computed kinds (the keywords _random / _addr make SetID derive the identifier) on some writable
 	// nodes: whatever is derived must have been derived by the setter, not by the first reader
 	for _, s := range t.stacks {
@@ -306,7 +328,7 @@ func c11Sequential(c *core.Ctx) {
 			keep[i] = deepCopyAny(a1[i])
 		}
 		s1, _ := Take(t.root)
-		if d := Diff(s0, s1, DiffOpts{}); d != "" {
+		if d := Diff(s0, s1, DiffOpts{Raw: true}); d != "" {
 			c.Violatef("modified:"+on+"."+cs.Method, desc(cs.Desc), "query %s changed the structure: %s", cs.Desc, d)
 			return false
 		}
@@ -323,7 +345,7 @@ func c11Sequential(c *core.Ctx) {
 			return false
 		}
 		s2, _ := Take(t.root)
-		if d := Diff(s0, s2, DiffOpts{}); d != "" {
+		if d := Diff(s0, s2, DiffOpts{Raw: true}); d != "" {
 			c.Violatef("modified:"+on+"."+cs.Method, desc(cs.Desc), "altering the answer of %s changed the structure: %s", cs.Desc, d)
 			return false
 		}
@@ -543,7 +565,7 @@ func c11Concurrent(c *core.Ctx) {
 		return
 	}
 	s1, _ := Take(t.root)
-	if d := Diff(s0, s1, DiffOpts{}); d != "" {
+	if d := Diff(s0, s1, DiffOpts{Raw: true}); d != "" {
 		c.Violatef("modified:concurrent", map[string]any{"tree": t.tree}, "concurrent queries changed the structure: %s", d)
 		return
 	}
